@@ -249,5 +249,821 @@ theorem combineAll_honest {g γ : F} {β : List F} {nv : Nat} (trips : List (Tri
         injection hc with hc; subst hc
         exact List.Forall₂.cons (combineLC_honest trips hh lc t ht) (ih ts' hts)
 
+/-! ### (B) batch completeness from the query set -/
+
+/-- without degree bounds the labelled accumulation is the scalar one of `PCV.Model.PST13` -/
+theorem accumulateL_eq (ca va : F) (cs : List (LComm F)) (vs ξs : List F)
+    (h : ∀ c ∈ cs, c.bound = none ∧ c.comm.shifted = none) :
+    accumulateL ca va cs vs ξs = accumulate ca va (cs.map (·.comm.comm)) vs ξs := by
+  induction cs generalizing ca va vs ξs with
+  | nil => cases vs <;> simp [accumulateL, accumulate]
+  | cons c cs ih =>
+    cases vs with
+    | nil => simp [accumulateL, accumulate]
+    | cons v vs =>
+      obtain ⟨hb, hs⟩ := h c (by simp)
+      cases ξs with
+      | nil => simp [accumulateL, accumulate, hb, hs]
+      | cons ξ ξs =>
+        simp only [accumulateL, accumulate, List.map_cons, hb, hs, Option.isSome_none, ne_eq,
+          not_true_eq_false, if_false, Bool.false_eq_true]
+        exact ih _ _ vs ξs (fun c' hc' => h c' (by simp [hc']))
+
+/-- the value at `z` of the polynomial the label `l` names (last write wins; `0` if none) -/
+def polyValueAt (trips : List (Trip F)) (l : Label) (z : List F) : F :=
+  match Marlin.lookupLast (fun (t : Trip F) => t.1.label) l trips with
+  | none => 0
+  | some t => evalMV t.1.poly z
+
+theorem gatherTrips_mem (trips : List (Trip F)) (ls : List Label) (gts : List (Trip F))
+    (h : gatherTrips trips ls = .ok gts) : ∀ t ∈ gts, t ∈ trips := by
+  induction ls generalizing gts with
+  | nil =>
+    simp only [gatherTrips] at h
+    injection h with h; subst h
+    intro t ht; cases ht
+  | cons l ls ih =>
+    simp only [gatherTrips] at h
+    split at h
+    · cases h
+    · rename_i t hl
+      split at h
+      · cases h
+      · rename_i ts hts
+        injection h with h; subst h
+        intro u hu
+        rcases List.mem_cons.1 hu with rfl | hu
+        · exact (Marlin.lookupLast_mem _ l trips _ hl).1
+        · exact ih ts hts u hu
+
+/-- the verifier gathers the commitments of the triples the prover gathered, with the true values -/
+theorem gather_corr (trips : List (Trip F)) (hlab : ∀ t ∈ trips, t.2.2.label = t.1.label)
+    (hb : ∀ t ∈ trips, t.2.2.bound = none ∧ t.2.2.comm.shifted = none)
+    (evals : Evals F) (z : List F) (ls : List Label) (gts : List (Trip F))
+    (h : gatherTrips trips ls = .ok gts)
+    (hev : ∀ l ∈ ls, lookupEval evals l z = some (polyValueAt trips l z)) :
+    gatherComms (trips.map (·.2.2)) evals z ls
+      = .ok (gts.map (·.2.2), gts.map (fun t => evalMV t.1.poly z)) := by
+  induction ls generalizing gts with
+  | nil =>
+    simp only [gatherTrips] at h
+    injection h with h; subst h
+    rfl
+  | cons l ls ih =>
+    simp only [gatherTrips] at h
+    split at h
+    · cases h
+    · rename_i t hl
+      split at h
+      · cases h
+      · rename_i ts hts
+        injection h with h; subst h
+        have hmem := (Marlin.lookupLast_mem _ l trips _ hl).1
+        have hlk : Marlin.lookupLast (fun (c : LComm F) => c.label) l (trips.map (·.2.2))
+            = some t.2.2 := by
+          rw [lookupLast_map (fun (t : Trip F) => t.1.label) (fun (c : LComm F) => c.label)
+            (·.2.2) l trips hlab, hl]
+          rfl
+        have hv := hev l (by simp)
+        simp only [polyValueAt, hl] at hv
+        obtain ⟨hb1, hb2⟩ := hb t hmem
+        simp only [gatherComms, hlk, hb1, hb2, Option.isSome_none, ne_eq, not_true_eq_false,
+          if_false, hv, ih ts hts (fun l' hl' => hev l' (by simp [hl'])), List.map_cons]
+
+theorem comms_of_honest {g γ : F} {β : List F} {nv : Nat} (gts : List (Trip F))
+    (hh : ∀ t ∈ gts, HonestT g γ β nv t) :
+    comms g γ β (gts.map (·.1.poly)) (gts.map (·.2.1.blind)) = (gts.map (·.2.2)).map (·.comm.comm) := by
+  induction gts with
+  | nil => rfl
+  | cons t gts ih =>
+    simp only [comms, List.map_cons, List.zipWith_cons_cons]
+    rw [(hh t (by simp)).comm]
+    congr 1
+    exact ih (fun u hu => hh u (by simp [hu]))
+
+section Keys
+
+/-- one point: whenever the prover answers, the verifier's accumulation of the commitments with the
+true values consumes the same challenges and gives a vanishing defect -/
+theorem openRest_defect (g γ h : F) (β : List F) (ts : List Term) (nv s D m nvp nvr : Nat)
+    (ps rs : List (MVPoly F)) (z ξs : List F) (π : Proof F) (rest : List F)
+    (hnvp : nvp ≤ nv) (hnvr : nvr ≤ nv) (hlen : ps.length = rs.length)
+    (hps : ∀ p ∈ ps, polyWf p = true ∧ polyVarsBelow nvp p = true)
+    (hrs : ∀ r ∈ rs, polyWf r = true ∧ polyVarsBelow nvr r = true ∧ ∀ t ∈ termsOf r, isUni t = true)
+    (ho : openRest (wfCK g γ β ts nv s D m) nvp nvr ps z rs ξs = .ok (π, rest)) :
+    ∃ C V, accumulate 0 0 (comms g γ β ps rs) (ps.map (fun p => evalMV p z)) ξs = .ok (C, V, rest)
+      ∧ defectCombined (wfVK g γ h β nv s D) C V z π = 0 ∧ π.w.length = nv := by
+  unfold openRest at ho
+  split at ho
+  · cases ho
+  · rename_i c hc
+    split at ho
+    · cases ho
+    · rename_i π' hπ'
+      injection ho with ho
+      injection ho with h1 h2
+      subst h1; subst h2
+      have hnil : ∀ (P : Term → Prop), ∀ t ∈ termsOf ([] : MVPoly F), P t := by
+        intro P t ht; simp [termsOf] at ht
+      have hacc := combine_accumulate g γ β z _ [] [] ps rs ξs c 0 0 hc hlen (hnil _) (hnil _)
+        (fun p hp => (polyWf_iff p).1 (hps p hp).1) (fun r hr => (polyWf_iff r).1 (hrs r hr).1)
+      have h1 := combine_terms (fun t => Term.wf t = true) _ [] [] ps rs ξs c hc (hnil _)
+        (fun p hp => (polyWf_iff p).1 (hps p hp).1)
+      have h2 := combine_terms (fun t => Term.varsBelow nvp t = true) _ [] [] ps rs ξs c hc (hnil _)
+        (fun p hp => (polyVarsBelow_iff nvp p).1 (hps p hp).2)
+      have h3 := combine_terms_r (fun t => Term.wf t = true) _ [] [] ps rs ξs c hc (hnil _)
+        (fun r hr => (polyWf_iff r).1 (hrs r hr).1)
+      have h4 := combine_terms_r (fun t => Term.varsBelow nvr t = true) _ [] [] ps rs ξs c hc (hnil _)
+        (fun r hr => (polyVarsBelow_iff nvr r).1 (hrs r hr).2.1)
+      have h5 := combine_terms_r (fun t => isUni t = true) _ [] [] ps rs ξs c hc (hnil _)
+        (fun r hr => (hrs r hr).2.2)
+      obtain ⟨hd, hwl⟩ := openCombined_defect g γ h β ts nv s D m nvp nvr c.1 c.2.1 z _ hnvp hnvr
+        ((polyWf_iff _).2 h1) ((polyVarsBelow_iff nvp _).2 h2) ((polyWf_iff _).2 h3)
+        ((polyVarsBelow_iff nvr _).2 h4) h5 hπ'
+      refine ⟨_, _, hacc, ?_, hwl⟩
+      simp only [evalMV_nil, sub_zero, zero_add]
+      exact hd
+
+/-- the groups of a batch, in order: the verifier's `combine_and_normalize` follows the prover's
+`batch_open` challenge by challenge and every per-point defect vanishes -/
+theorem batch_groups_complete (g γ h : F) (β : List F) (ts : List Term) (nv s D m : Nat)
+    (trips : List (Trip F)) (hh : ∀ t ∈ trips, HonestT g γ β nv t) (evals : Evals F)
+    (groups : List (Group F)) (ξs : List F) (πs : List (Proof F)) (rest : List F)
+    (hev : ∀ gr ∈ groups, ∀ l ∈ gr.2.2,
+      lookupEval evals l gr.2.1 = some (polyValueAt trips l gr.2.1))
+    (ho : batchOpenGroups (wfCK g γ β ts nv s D m) trips groups ξs = .ok (πs, rest)) :
+    ∃ tr, combineAndNormalize (trips.map (·.2.2)) evals groups ξs = .ok (tr, rest)
+      ∧ tr.map (·.2.1) = groups.map (·.2.1)
+      ∧ πs.length = groups.length
+      ∧ (∀ d ∈ defectsC (wfVK g γ h β nv s D) (tr.map (·.1)) (tr.map (·.2.1)) (tr.map (·.2.2)) πs,
+            d = 0)
+      ∧ ∀ π ∈ πs, π.w.length = nv := by
+  induction groups generalizing ξs πs with
+  | nil =>
+    simp only [batchOpenGroups] at ho
+    injection ho with ho
+    injection ho with h1 h2
+    subst h1; subst h2
+    exact ⟨[], rfl, rfl, rfl, by intro d hd; simp [defectsC] at hd, by intro π hπ; cases hπ⟩
+  | cons gr groups ih =>
+    simp only [batchOpenGroups] at ho
+    split at ho
+    · cases ho
+    · rename_i gts hg
+      split at ho
+      · cases ho
+      · rename_i r hr
+        split at ho
+        · cases ho
+        · rename_i rr hrr
+          injection ho with ho
+          injection ho with h1 h2
+          subst h1; subst h2
+          have hgm := gatherTrips_mem trips gr.2.2 gts hg
+          have hgh : ∀ t ∈ gts, HonestT g γ β nv t := fun t ht => hh t (hgm t ht)
+          have hcorr := gather_corr trips (fun t ht => (hh t ht).clabel)
+            (fun t ht => ⟨(hh t ht).cbound, (hh t ht).shifted⟩) evals gr.2.1 gr.2.2 gts hg
+            (hev gr (by simp))
+          unfold openL at hr
+          obtain ⟨C, V, hacc, hd, hwl⟩ := openRest_defect g γ h β ts nv s D m
+            (maxNv (gts.map (·.1.nv))) (maxNv (gts.map (·.2.1.nv)))
+            (gts.map (·.1.poly)) (gts.map (·.2.1.blind)) gr.2.1 ξs r.1 r.2
+            (maxNv_le _ nv (by
+              intro x hx
+              simp only [List.mem_map] at hx
+              obtain ⟨t, ht, rfl⟩ := hx
+              exact (hgh t ht).pnv))
+            (maxNv_le _ nv (by
+              intro x hx
+              simp only [List.mem_map] at hx
+              obtain ⟨t, ht, rfl⟩ := hx
+              exact (hgh t ht).rnv))
+            (by simp)
+            (by
+              intro p hp
+              simp only [List.mem_map] at hp
+              obtain ⟨t, ht, rfl⟩ := hp
+              refine ⟨(polyWf_iff _).2 (hgh t ht).pwf, (polyVarsBelow_iff _ _).2 ?_⟩
+              intro u hu
+              exact varsBelow_mono (le_maxNv _ _ (List.mem_map.2 ⟨t, ht, rfl⟩)) ((hgh t ht).pvars u hu))
+            (by
+              intro q hq
+              simp only [List.mem_map] at hq
+              obtain ⟨t, ht, rfl⟩ := hq
+              refine ⟨(polyWf_iff _).2 (hgh t ht).rwf, (polyVarsBelow_iff _ _).2 ?_, (hgh t ht).runi⟩
+              intro u hu
+              exact varsBelow_mono (le_maxNv _ _ (List.mem_map.2 ⟨t, ht, rfl⟩)) ((hgh t ht).rvars u hu))
+            (by rw [← hr])
+          rw [comms_of_honest gts hgh] at hacc
+          have hmapv : (gts.map (·.1.poly)).map (fun p => evalMV p gr.2.1)
+              = gts.map (fun t => evalMV t.1.poly gr.2.1) := by
+            rw [List.map_map]; rfl
+          rw [hmapv] at hacc
+          have haccL : accumulateL 0 0 (gts.map (·.2.2)) (gts.map (fun t => evalMV t.1.poly gr.2.1)) ξs
+              = .ok (C, V, r.2) := by
+            rw [accumulateL_eq _ _ _ _ _ (by
+              intro c hc
+              simp only [List.mem_map] at hc
+              obtain ⟨t, ht, rfl⟩ := hc
+              exact ⟨(hgh t ht).cbound, (hgh t ht).shifted⟩)]
+            exact hacc
+          obtain ⟨tr, htr, hz', hlen', hds, hws⟩ := ih r.2 rr.1
+            (fun gr' hgr' => hev gr' (by simp [hgr'])) (by rw [hrr])
+          refine ⟨(C, gr.2.1, V) :: tr, ?_, ?_, ?_, ?_, ?_⟩
+          · simp only [combineAndNormalize, hcorr, haccL, htr]
+          · simp only [List.map_cons, hz']
+          · simp only [List.length_cons, hlen']
+          · intro d hd'
+            simp only [List.map_cons, defectsC, List.mem_cons] at hd'
+            rcases hd' with rfl | hd'
+            · exact hd
+            · exact hds d hd'
+          · intro π hπ
+            rcases List.mem_cons.1 hπ with rfl | hπ
+            · exact hwl
+            · exact hws π hπ
+
+/-- **(B) Batch completeness.**  Honest triples under the well-formed key; whenever `batch_open`
+answers a query set, `batch_check` — on the commitments of those triples, the same query set, and
+evaluations that contain the true value for every (label, point) a group asks for — accepts, for
+every randomizer list. -/
+theorem batch_complete (g γ h : F) (β : List F) (ts : List Term) (nv s D m : Nat)
+    (trips : List (Trip F)) (hh : ∀ t ∈ trips, HonestT g γ β nv t) (evals : Evals F)
+    (qs : List (Query F)) (ξs rs : List F) (πs : List (Proof F)) (rest : List F)
+    (hβ : nv ≤ β.length) (hz : ∀ gr ∈ groupQueries qs, nv ≤ gr.2.1.length)
+    (hev : ∀ gr ∈ groupQueries qs, ∀ l ∈ gr.2.2,
+      lookupEval evals l gr.2.1 = some (polyValueAt trips l gr.2.1))
+    (ho : batchOpen (wfCK g γ β ts nv s D m) trips qs ξs = .ok (πs, rest)) :
+    batchCheckQ (wfVK g γ h β nv s D) (trips.map (·.2.2)) qs evals πs ξs rs = .ok true := by
+  unfold batchOpen at ho
+  obtain ⟨tr, htr, hzs, hlen, hds, hws⟩ := batch_groups_complete g γ h β ts nv s D m trips hh evals
+    (groupQueries qs) ξs πs rest hev ho
+  unfold batchCheckQ
+  rw [htr]
+  simp only
+  unfold batchCheck
+  rw [batchDefect_eq _ _ _ _ _ _ (by rw [hzs, List.length_map]; exact hlen)
+    (by simp only [wfVK, List.length_map]; exact hβ)
+    (by intro π hπ; simp only [wfVK]; exact hws π hπ)
+    (by
+      intro z hz'
+      rw [hzs] at hz'
+      simp only [List.mem_map] at hz'
+      obtain ⟨gr, hgr, rfl⟩ := hz'
+      simp only [wfVK]
+      exact hz gr hgr),
+    wsum_zero _ _ _ hds]
+  simp
+
+end Keys
+
+/-! ### (C) the constants the verifier subtracts -/
+
+/-- the sum of the constant terms of a combination -/
+def lcConst : List (F × LC.LCTerm) → F
+  | [] => 0
+  | t :: ts => (if t.2.isOne then t.1 else 0) + lcConst ts
+
+/-- the constants of ALL combinations that carry the label `l` (the code moves every evaluation
+whose label equals the combination's label, once per combination) -/
+def constFor : List (LC.LinComb F) → Label → F
+  | [], _ => 0
+  | lc :: lcs, l => (if lc.label = l then lcConst lc.terms else 0) + constFor lcs l
+
+theorem lookupEval_subConst (lbl : Label) (c : F) (evals : Evals F) (l : Label) (z : List F) :
+    lookupEval (subConst lbl c evals) l z
+      = (lookupEval evals l z).map (fun v => if l = lbl then v - c else v) := by
+  induction evals with
+  | nil => rfl
+  | cons e es ih =>
+    simp only [subConst, List.map_cons] at ih ⊢
+    by_cases he : e.1.1 = lbl
+    · simp only [he, if_true, lookupEval]
+      by_cases hk : e.1 = (l, z)
+      · have hl : l = lbl := by rw [← he, hk]
+        simp [hk, hl]
+      · simp only [hk, if_false]; exact ih
+    · simp only [he, if_false, lookupEval]
+      by_cases hk : e.1 = (l, z)
+      · have hl : ¬ l = lbl := by intro hl; apply he; rw [hk]; exact hl
+        simp [hk, hl]
+      · simp only [hk, if_false]; exact ih
+
+theorem lookupEval_adjustTerms (lbl : Label) (ts : List (F × LC.LCTerm)) (evals : Evals F)
+    (l : Label) (z : List F) :
+    lookupEval (adjustTerms lbl ts evals) l z
+      = (lookupEval evals l z).map (fun v => if l = lbl then v - lcConst ts else v) := by
+  induction ts generalizing evals with
+  | nil =>
+    simp only [adjustTerms, lcConst, sub_zero]
+    cases lookupEval evals l z <;> simp
+  | cons t ts ih =>
+    simp only [adjustTerms, lcConst]
+    rw [ih]
+    by_cases ho : t.2.isOne = true
+    · simp only [ho, if_true]
+      rw [lookupEval_subConst]
+      cases lookupEval evals l z with
+      | none => rfl
+      | some v =>
+        by_cases hl : l = lbl
+        · simp only [Option.map_some, hl, if_true]; congr 1; ring
+        · simp [hl]
+    · simp only [ho, Bool.false_eq_true, if_false, zero_add]
+
+theorem lookupEval_adjustEvals (lcs : List (LC.LinComb F)) (evals : Evals F) (l : Label)
+    (z : List F) :
+    lookupEval (adjustEvals lcs evals) l z = (lookupEval evals l z).map (fun v => v - constFor lcs l) := by
+  induction lcs generalizing evals with
+  | nil =>
+    simp only [adjustEvals, constFor, sub_zero]
+    cases lookupEval evals l z <;> simp
+  | cons lc lcs ih =>
+    simp only [adjustEvals, constFor]
+    rw [ih, lookupEval_adjustTerms]
+    cases lookupEval evals l z with
+    | none => rfl
+    | some v =>
+      by_cases hl : l = lc.label
+      · have hl' : lc.label = l := hl.symm
+        simp only [Option.map_some, hl, if_true]; congr 1; ring
+      · have hl' : ¬ lc.label = l := fun hx => hl hx.symm
+        simp [hl, hl']
+
+/-! ### (D) the verifier combines the commitments the prover combined -/
+
+/-- the verifier-visible part of the prover's accumulators -/
+def vproj (a : LCAcc F) : VAcc F := ⟨a.comm, a.shifted, a.bound⟩
+
+theorem lcStep_V (trips : List (Trip F))
+    (hc : ∀ t ∈ trips, t.2.2.label = t.1.label ∧ t.2.2.bound = t.1.bound)
+    (k : Nat) (acc acc' : LCAcc F) (term : F × LC.LCTerm)
+    (h : lcStep trips k acc term = .ok acc') :
+    lcStepV (trips.map (·.2.2)) k (vproj acc) term = .ok (vproj acc') := by
+  unfold lcStep at h
+  unfold lcStepV
+  cases ht : term.2 with
+  | one =>
+    rw [ht] at h
+    simp only at h ⊢
+    injection h with h; subst h; rfl
+  | poly l =>
+    rw [ht] at h
+    simp only at h ⊢
+    rw [lookupLast_map (fun (t : Trip F) => t.1.label) (fun (c : LComm F) => c.label)
+      (·.2.2) l trips (fun t ht => (hc t ht).1)]
+    cases hl : Marlin.lookupLast (fun (t : Trip F) => t.1.label) l trips with
+    | none => rw [hl] at h; cases h
+    | some x =>
+      rw [hl] at h
+      simp only [Option.map_some] at h ⊢
+      have hb := (hc x (Marlin.lookupLast_mem _ l trips x hl).1).2
+      rw [hb]
+      cases hp : policy k x.1.bound term.1 with
+      | some e => rw [hp] at h; cases h
+      | none =>
+        rw [hp] at h
+        simp only at h ⊢
+        injection h with h
+        subst h
+        by_cases hk : k = 1 ∧ x.1.bound.isSome = true
+        · simp only [hk, and_self, if_true, vproj, LCAcc.add]
+        · simp only [hk, if_false, vproj, LCAcc.add]
+
+theorem lcTerms_V (trips : List (Trip F))
+    (hc : ∀ t ∈ trips, t.2.2.label = t.1.label ∧ t.2.2.bound = t.1.bound)
+    (k : Nat) (terms : List (F × LC.LCTerm)) (acc acc' : LCAcc F)
+    (h : lcTerms trips k acc terms = .ok acc') :
+    lcTermsV (trips.map (·.2.2)) k (vproj acc) terms = .ok (vproj acc') := by
+  induction terms generalizing acc with
+  | nil =>
+    simp only [lcTerms] at h
+    injection h with h; subst h; rfl
+  | cons t ts ih =>
+    simp only [lcTerms] at h
+    split at h
+    · cases h
+    · rename_i a1 h1
+      simp only [lcTermsV, lcStep_V trips hc k acc a1 t h1]
+      exact ih a1 h
+
+theorem combineLC_V (trips : List (Trip F))
+    (hc : ∀ t ∈ trips, t.2.2.label = t.1.label ∧ t.2.2.bound = t.1.bound)
+    (lc : LC.LinComb F) (res : Trip F) (h : combineLC trips lc = .ok res) :
+    combineLCComm (trips.map (·.2.2)) lc = .ok res.2.2 := by
+  unfold combineLC at h
+  split at h
+  · cases h
+  · rename_i a ha
+    injection h with h; subst h
+    unfold combineLCComm
+    have := lcTerms_V trips hc lc.terms.length lc.terms LCAcc.init a ha
+    simp only [vproj, LCAcc.init] at this
+    rw [this]
+
+theorem combineAll_V (trips : List (Trip F))
+    (hc : ∀ t ∈ trips, t.2.2.label = t.1.label ∧ t.2.2.bound = t.1.bound)
+    (lcs : List (LC.LinComb F)) (ts : List (Trip F)) (h : combineAll trips lcs = .ok ts) :
+    combineAllComm (trips.map (·.2.2)) lcs = .ok (ts.map (·.2.2)) := by
+  induction lcs generalizing ts with
+  | nil =>
+    simp only [combineAll] at h
+    injection h with h; subst h; rfl
+  | cons lc lcs ih =>
+    simp only [combineAll] at h
+    split at h
+    · cases h
+    · rename_i t ht
+      split at h
+      · cases h
+      · rename_i ts' hts
+        injection h with h; subst h
+        simp only [combineAllComm, combineLC_V trips hc lc t ht, ih ts' hts, List.map_cons]
+
+/-! ### (E) completeness of combination proofs -/
+
+/-- the polynomial part of the value of the combination labelled `l` (last write wins) -/
+def polyPartAt (trips : List (Trip F)) (lcs : List (LC.LinComb F)) (l : Label) (z : List F) : F :=
+  match Marlin.lookupLast (fun (lc : LC.LinComb F) => lc.label) l lcs with
+  | none => 0
+  | some lc => lcPolyValue trips z lc.terms
+
+/-- **the true value** of the combination labelled `l` at `z`: `Σ coeff·p(z)` plus the constants -/
+def lcValueAt (trips : List (Trip F)) (lcs : List (LC.LinComb F)) (l : Label) (z : List F) : F :=
+  polyPartAt trips lcs l z + constFor lcs l
+
+theorem lookupLast_forall₂ {α β : Type} (R : α → β → Prop) (la : α → Label) (lb : β → Label)
+    (hR : ∀ a b, R a b → la a = lb b) (l : Label) (xs : List α) (ys : List β)
+    (h : List.Forall₂ R xs ys) (a0 : Option α) (b0 : Option β)
+    (h0 : (a0 = none ∧ b0 = none) ∨ ∃ a b, a0 = some a ∧ b0 = some b ∧ R a b) :
+    let ra := xs.foldl (fun acc x => if la x = l then some x else acc) a0
+    let rb := ys.foldl (fun acc y => if lb y = l then some y else acc) b0
+    (ra = none ∧ rb = none) ∨ ∃ a b, ra = some a ∧ rb = some b ∧ R a b := by
+  induction h generalizing a0 b0 with
+  | nil => exact h0
+  | @cons a b xs' ys' hab _ ih =>
+    simp only [List.foldl_cons]
+    apply ih
+    rw [hR a b hab]
+    by_cases hl : lb b = l
+    · simp only [hl, if_true]
+      exact Or.inr ⟨a, b, rfl, rfl, hab⟩
+    · simp only [hl, if_false]
+      exact h0
+
+theorem forall₂_left {α β : Type} (R : α → β → Prop) (xs : List α) (ys : List β)
+    (h : List.Forall₂ R xs ys) : ∀ x ∈ xs, ∃ y ∈ ys, R x y := by
+  induction h with
+  | nil => intro x hx; cases hx
+  | @cons a b xs' ys' hab _ ih =>
+    intro x hx
+    rcases List.mem_cons.1 hx with rfl | hx
+    · exact ⟨b, by simp, hab⟩
+    · obtain ⟨y, hy, hr⟩ := ih x hx
+      exact ⟨y, by simp [hy], hr⟩
+
+theorem polyValueAt_combined {g γ : F} {β : List F} {nv : Nat} (trips : List (Trip F))
+    (lcs : List (LC.LinComb F)) (ts : List (Trip F))
+    (hF : List.Forall₂ (fun (t : Trip F) (lc : LC.LinComb F) => HonestT g γ β nv t ∧
+      t.1.label = lc.label ∧ ∀ z, evalMV t.1.poly z = lcPolyValue trips z lc.terms) ts lcs)
+    (l : Label) (z : List F) : polyValueAt ts l z = polyPartAt trips lcs l z := by
+  have := lookupLast_forall₂ _ (fun (t : Trip F) => t.1.label) (fun (lc : LC.LinComb F) => lc.label)
+    (fun a b hab => hab.2.1) l ts lcs hF none none (Or.inl ⟨rfl, rfl⟩)
+  simp only at this
+  unfold polyValueAt polyPartAt Marlin.lookupLast
+  rcases this with ⟨h1, h2⟩ | ⟨a, b, h1, h2, hab⟩
+  · rw [h1, h2]
+  · rw [h1, h2]
+    exact hab.2.2 z
+
+theorem zip3_map_comm {α β γ' : Type} (xs : List α) (ys : List β) (zs : List γ')
+    (h1 : xs.length = ys.length) (h2 : ys.length = zs.length) :
+    (xs.zip (ys.zip zs)).map (·.2.2) = zs := by
+  induction xs generalizing ys zs with
+  | nil =>
+    cases ys with
+    | nil => cases zs with
+      | nil => rfl
+      | cons _ _ => simp at h2
+    | cons _ _ => simp at h1
+  | cons x xs ih =>
+    cases ys with
+    | nil => simp at h1
+    | cons y ys =>
+      cases zs with
+      | nil => simp at h2
+      | cons z zs =>
+        simp only [List.zip_cons_cons, List.map_cons]
+        rw [ih ys zs (by simpa using h1) (by simpa using h2)]
+
+section Keys2
+
+/-- **(E) Completeness of combination proofs.**  Polynomials, states and commitments as `commit`
+makes them under the key of the trapdoor `β⃗`; any combinations (zero, negative, repeated labels,
+constants); any query set over the combination labels; evaluations containing, for every
+(combination, point) a group asks for, the true value `Σ coeff·p(z) + constants`: whenever
+`open_combinations` answers, `check_combinations` accepts — for every randomizer list. -/
+theorem lc_complete (g γ h : F) (β : List F) (ts : List Term) (nv s D m : Nat)
+    (polys : List (LPoly F)) (sts : List (Rand F)) (comms : List (LComm F))
+    (hl1 : polys.length = sts.length) (hl2 : sts.length = comms.length)
+    (hh : ∀ t ∈ polys.zip (sts.zip comms), HonestT g γ β nv t)
+    (lcs : List (LC.LinComb F)) (qs : List (Query F)) (evals : Evals F) (ξs rs : List F)
+    (πs : List (Proof F)) (rest : List F)
+    (hβ : nv ≤ β.length) (hz : ∀ gr ∈ groupQueries qs, nv ≤ gr.2.1.length)
+    (hev : ∀ gr ∈ groupQueries qs, ∀ l ∈ gr.2.2,
+      lookupEval evals l gr.2.1 = some (lcValueAt (polys.zip (sts.zip comms)) lcs l gr.2.1))
+    (ho : openCombinations (wfCK g γ β ts nv s D m) polys sts comms lcs qs ξs = .ok (πs, rest)) :
+    checkCombinations (wfVK g γ h β nv s D) comms lcs qs evals πs ξs rs = .ok true := by
+  unfold openCombinations at ho
+  split at ho
+  · cases ho
+  · rename_i lts hcomb
+    have hF := combineAll_honest _ hh lcs lts hcomb
+    have hV := combineAll_V _ (fun t ht => ⟨(hh t ht).clabel, by
+      rw [(hh t ht).cbound, (hh t ht).pbound]⟩) lcs lts hcomb
+    rw [zip3_map_comm polys sts comms hl1 hl2] at hV
+    unfold checkCombinations
+    rw [hV]
+    simp only
+    have hlh : ∀ t ∈ lts, HonestT g γ β nv t := by
+      intro t ht
+      obtain ⟨lc, _, hR⟩ := forall₂_left _ _ _ hF t ht
+      exact hR.1
+    exact batch_complete g γ h β ts nv s D m lts hlh (adjustEvals lcs evals) qs ξs rs πs rest hβ hz
+      (by
+        intro gr hgr l hl
+        rw [lookupEval_adjustEvals, hev gr hgr l hl, polyValueAt_combined _ lcs lts hF]
+        simp [lcValueAt])
+      ho
+
+end Keys2
+
+/-! ### (F) the closed form of the verifier's decision on one combination, and how it moves -/
+
+/-- what one term contributes to the combined commitment -/
+def termComm (comms : List (LComm F)) (t : F × LC.LCTerm) : F :=
+  match t.2 with
+  | .one => 0
+  | .poly l =>
+    match Marlin.lookupLast (fun (c : LComm F) => c.label) l comms with
+    | none => 0
+    | some c => t.1 * c.comm.comm
+
+/-- `Σ coeff·C_label` over the polynomial terms: the commitment the verifier forms -/
+def lcCommValue (comms : List (LComm F)) : List (F × LC.LCTerm) → F
+  | [] => 0
+  | t :: ts => termComm comms t + lcCommValue comms ts
+
+/-- every polynomial term names a supplied commitment -/
+def AllKnown (comms : List (LComm F)) (terms : List (F × LC.LCTerm)) : Prop :=
+  ∀ t ∈ terms, ∀ l, t.2 = .poly l →
+    (Marlin.lookupLast (fun (c : LComm F) => c.label) l comms).isSome = true
+
+theorem lcStepV_one (comms : List (LComm F)) (k : Nat) (acc : VAcc F) (a : F) :
+    lcStepV comms k acc (a, .one) = .ok acc := rfl
+
+theorem lcStepV_known (comms : List (LComm F)) (k : Nat) (acc : VAcc F) (a : F) (l : Label)
+    (c : LComm F) (hl : Marlin.lookupLast (fun (c : LComm F) => c.label) l comms = some c)
+    (hb : c.bound = none) (hs : c.comm.shifted = none) :
+    lcStepV comms k acc (a, .poly l) = .ok ⟨acc.comm + a * c.comm.comm, acc.shifted, acc.bound⟩ := by
+  unfold lcStepV
+  simp only [hl, hb, policy_none, Option.isSome_none, Bool.false_eq_true, and_false, if_false,
+    addShifted, hs]
+
+theorem lcTermsV_closed (comms : List (LComm F))
+    (hcb : ∀ c ∈ comms, c.bound = none ∧ c.comm.shifted = none) (k : Nat)
+    (terms : List (F × LC.LCTerm)) (hk : AllKnown comms terms) (acc : VAcc F) :
+    lcTermsV comms k acc terms = .ok ⟨acc.comm + lcCommValue comms terms, acc.shifted, acc.bound⟩ := by
+  induction terms generalizing acc with
+  | nil => simp [lcTermsV, lcCommValue]
+  | cons t ts ih =>
+    have hk' : AllKnown comms ts := fun u hu => hk u (by simp [hu])
+    rcases t with ⟨a, _ | l⟩
+    · simp only [lcTermsV, lcStepV_one, lcCommValue, termComm, zero_add]
+      exact ih hk' acc
+    · have := hk (a, .poly l) (by simp) l rfl
+      cases hl : Marlin.lookupLast (fun (c : LComm F) => c.label) l comms with
+      | none => rw [hl] at this; simp at this
+      | some c =>
+        obtain ⟨hb, hs⟩ := hcb c (Marlin.lookupLast_mem _ l comms c hl).1
+        simp only [lcTermsV, lcStepV_known comms k acc a l c hl hb hs, lcCommValue, termComm, hl]
+        rw [ih hk']
+        simp only [Except.ok.injEq, VAcc.mk.injEq, and_true]
+        ring
+
+theorem lcCommValue_append (comms : List (LComm F)) (a b : List (F × LC.LCTerm)) :
+    lcCommValue comms (a ++ b) = lcCommValue comms a + lcCommValue comms b := by
+  induction a with
+  | nil => simp [lcCommValue]
+  | cons t a ih => simp only [List.cons_append, lcCommValue, ih]; ring
+
+theorem lcConst_append (a b : List (F × LC.LCTerm)) : lcConst (a ++ b) = lcConst a + lcConst b := by
+  induction a with
+  | nil => simp [lcConst]
+  | cons t a ih => simp only [List.cons_append, lcConst, ih]; ring
+
+/-- a coefficient moved by `δ` moves the combined commitment by `δ·C_label`, not the constants -/
+theorem coeff_shift (comms : List (LComm F)) (pre post : List (F × LC.LCTerm)) (a δ : F) (l : Label)
+    (c : LComm F) (hl : Marlin.lookupLast (fun (c : LComm F) => c.label) l comms = some c) :
+    lcCommValue comms (pre ++ (a + δ, .poly l) :: post)
+        = lcCommValue comms (pre ++ (a, .poly l) :: post) + δ * c.comm.comm
+      ∧ lcConst (pre ++ (a + δ, LC.LCTerm.poly l) :: post) = lcConst (pre ++ (a, .poly l) :: post) := by
+  constructor
+  · simp only [lcCommValue_append, lcCommValue, termComm, hl]; ring
+  · simp only [lcConst_append, lcConst, LC.LCTerm.isOne, Bool.false_eq_true, if_false]
+
+/-- a constant moved by `δ` moves the subtracted constants by `δ`, not the commitment -/
+theorem const_shift (comms : List (LComm F)) (pre post : List (F × LC.LCTerm)) (a δ : F) :
+    lcCommValue comms (pre ++ (a + δ, .one) :: post) = lcCommValue comms (pre ++ (a, .one) :: post)
+      ∧ lcConst (pre ++ (a + δ, LC.LCTerm.one) :: post) = lcConst (pre ++ (a, .one) :: post) + δ := by
+  constructor
+  · simp only [lcCommValue_append, lcCommValue, termComm]
+  · simp only [lcConst_append, lcConst, LC.LCTerm.isOne, if_true]; ring
+
+/-- the defect of one combination claim `(lc, z, v)` under the challenge `ξ` -/
+def lcDefect (vk : VK F) (comms : List (LComm F)) (lc : LC.LinComb F) (z : List F) (v : F)
+    (π : Proof F) (ξ : F) : F :=
+  defectCombined vk (lcCommValue comms lc.terms * ξ) ((v - lcConst lc.terms) * ξ) z π
+
+theorem wsum_one (rs : List F) (d : F) : wsum 1 rs [d] = d := by
+  simp [wsum]
+
+/-- **(F) one combination, one query: what `check_combinations` computes.**  For arbitrary
+(unbounded) commitments, an arbitrary verifier key and proof of the right shape: the pairing product
+is `lcDefect`, i.e. `((Σ coeff·C_label − (v − constants)·g)·ξ − rv·γ)·h − Σᵢ Wᵢ·(βᵢh − zᵢh)`, and the
+answer is whether it vanishes. -/
+theorem lc_single_closed (vk : VK F) (comms : List (LComm F))
+    (hcb : ∀ c ∈ comms, c.bound = none ∧ c.comm.shifted = none) (lc : LC.LinComb F)
+    (hk : AllKnown comms lc.terms) (pl : Label) (z : List F) (v : F) (π : Proof F) (ξ : F)
+    (ξs rs : List F) (hw : π.w.length = vk.numVars) (hbh : vk.numVars ≤ vk.betaH.length)
+    (hz : vk.numVars ≤ z.length) :
+    checkCombinationsDefect vk comms [lc] [(lc.label, (pl, z))] [((lc.label, z), v)] [π] (ξ :: ξs) rs
+        = .ok (lcDefect vk comms lc z v π ξ)
+      ∧ checkCombinations vk comms [lc] [(lc.label, (pl, z))] [((lc.label, z), v)] [π] (ξ :: ξs) rs
+        = .ok (decide (lcDefect vk comms lc z v π ξ = 0)) := by
+  have hcomb : combineAllComm comms [lc]
+      = .ok [⟨lc.label, ⟨lcCommValue comms lc.terms, none⟩, none⟩] := by
+    simp only [combineAllComm, combineLCComm, lcTermsV_closed comms hcb _ lc.terms hk, zero_add]
+  have hgroups : groupQueries [(lc.label, (pl, z))] = [(pl, (z, [lc.label]))] := by
+    simp [groupQueries, groupInsert]
+  have hcn : combineAndNormalize [⟨lc.label, ⟨lcCommValue comms lc.terms, none⟩, none⟩]
+      (adjustEvals [lc] [((lc.label, z), v)]) [(pl, (z, [lc.label]))] (ξ :: ξs)
+      = .ok ([(lcCommValue comms lc.terms * ξ, z, (v - lcConst lc.terms) * ξ)], ξs) := by
+    have hlk : lookupEval (adjustEvals [lc] [((lc.label, z), v)]) lc.label z
+        = some (v - lcConst lc.terms) := by
+      rw [lookupEval_adjustEvals]
+      simp [lookupEval, constFor]
+    simp only [combineAndNormalize, gatherComms, Marlin.lookupLast, List.foldl_cons, List.foldl_nil,
+      if_true, Option.isSome_none, ne_eq, not_true_eq_false, if_false, hlk, accumulateL, zero_add,
+      Bool.false_eq_true]
+  have hbd : batchDefect vk [lcCommValue comms lc.terms * ξ] [z] [(v - lcConst lc.terms) * ξ] [π] rs
+      = .ok (lcDefect vk comms lc z v π ξ) := by
+    rw [batchDefect_eq vk _ _ _ _ rs rfl hbh (by intro π' hπ'; simp at hπ'; rw [hπ']; exact hw)
+      (by intro z' hz'; simp at hz'; rw [hz']; exact hz)]
+    simp only [defectsC, wsum_one, lcDefect]
+  constructor
+  · unfold checkCombinationsDefect batchDefectQ
+    rw [hcomb]
+    simp only [hgroups, hcn, List.map_cons, List.map_nil]
+    exact hbd
+  · unfold checkCombinations batchCheckQ batchCheck
+    rw [hcomb]
+    simp only [hgroups, hcn, List.map_cons, List.map_nil, hbd]
+
+/-- **how the defect moves**: against the same proof, point and challenge, two statements about a
+combination of the same label differ by
+`((ΔΣcoeff·C) − g·(Δv − Δconstants))·ξ·h`. -/
+theorem lcDefect_shift (vk : VK F) (comms : List (LComm F)) (lc lc' : LC.LinComb F) (z : List F)
+    (v v' : F) (π : Proof F) (ξ : F) :
+    lcDefect vk comms lc' z v' π ξ = lcDefect vk comms lc z v π ξ
+      + ((lcCommValue comms lc'.terms - lcCommValue comms lc.terms)
+          - vk.g * ((v' - lcConst lc'.terms) - (v - lcConst lc.terms))) * ξ * vk.h := by
+  unfold lcDefect defectCombined
+  ring
+
+/-! ### refusals named by the property -/
+
+theorem lcStep_unknown (trips : List (Trip F)) (k : Nat) (acc : LCAcc F) (coeff : F) (l : Label)
+    (hl : Marlin.lookupLast (fun (t : Trip F) => t.1.label) l trips = none) :
+    lcStep trips k acc (coeff, .poly l) = .error .missingPolynomial := by
+  unfold lcStep; simp only [hl]
+
+theorem lcStepV_unknown (comms : List (LComm F)) (k : Nat) (acc : VAcc F) (coeff : F) (l : Label)
+    (hl : Marlin.lookupLast (fun (c : LComm F) => c.label) l comms = none) :
+    lcStepV comms k acc (coeff, .poly l) = .error .missingPolynomial := by
+  unfold lcStepV; simp only [hl]
+
+/-- the verifier meets an unknown label after terms that name supplied (unbounded) commitments -/
+theorem lcTermsV_unknown (comms : List (LComm F))
+    (hcb : ∀ c ∈ comms, c.bound = none ∧ c.comm.shifted = none) (k : Nat)
+    (pre post : List (F × LC.LCTerm)) (hk : AllKnown comms pre) (coeff : F) (l : Label)
+    (hl : Marlin.lookupLast (fun (c : LComm F) => c.label) l comms = none) (acc : VAcc F) :
+    lcTermsV comms k acc (pre ++ (coeff, .poly l) :: post) = .error .missingPolynomial := by
+  induction pre generalizing acc with
+  | nil => simp only [List.nil_append, lcTermsV, lcStepV_unknown comms k acc coeff l hl]
+  | cons t pre ih =>
+    have h1 := lcTermsV_closed comms hcb k [t] (fun u hu => hk u (by
+      simp only [List.mem_singleton] at hu; simp [hu])) acc
+    simp only [lcTermsV] at h1
+    simp only [List.cons_append, lcTermsV]
+    split at h1
+    · cases h1
+    · rename_i a1 ha1
+      exact ih (fun u hu => hk u (by simp [hu])) a1
+
+/-- the policy for a polynomial / commitment that carries a degree bound -/
+theorem policy_bounded (k b : Nat) (coeff : F) :
+    (k ≠ 1 → policy k (some b) coeff = some .equationHasDegreeBounds) ∧
+    (k = 1 → coeff ≠ 1 → policy k (some b) coeff = some .abort) ∧
+    (k = 1 → coeff = 1 → policy k (some b) coeff = none) := by
+  refine ⟨fun hk => ?_, fun hk hc => ?_, fun hk hc => ?_⟩
+  · simp [policy, hk]
+  · simp [policy, hk, hc]
+  · simp [policy, hk, hc]
+
+/-- a query for a combination label that was not supplied: `batch_open` / `batch_check` refuse -/
+theorem gatherTrips_unknown (trips : List (Trip F)) (l : Label) (ls : List Label)
+    (hl : Marlin.lookupLast (fun (t : Trip F) => t.1.label) l trips = none) :
+    gatherTrips trips (l :: ls) = .error .missingPolynomial := by
+  simp only [gatherTrips, hl]
+
+theorem gatherComms_unknown (comms : List (LComm F)) (evals : Evals F) (z : List F) (l : Label)
+    (ls : List Label) (hl : Marlin.lookupLast (fun (c : LComm F) => c.label) l comms = none) :
+    gatherComms comms evals z (l :: ls) = .error .missingPolynomial := by
+  simp only [gatherComms, hl]
+
+/-- a supplied (unbounded) commitment without its evaluation -/
+theorem gatherComms_missing_eval (comms : List (LComm F)) (evals : Evals F) (z : List F) (l : Label)
+    (ls : List Label) (c : LComm F)
+    (hl : Marlin.lookupLast (fun (c : LComm F) => c.label) l comms = some c)
+    (hb : c.bound = none ∧ c.comm.shifted = none) (he : lookupEval evals l z = none) :
+    gatherComms comms evals z (l :: ls) = .error .missingEvaluation := by
+  simp only [gatherComms, hl, hb.1, hb.2, he, Option.isSome_none, ne_eq, not_true_eq_false, if_false]
+
+/-! ### the stated value of a combination -/
+
+/-- `LinearCombination`'s own value under "label ↦ evaluation of that polynomial at `z`" is the
+polynomial part plus the constants -/
+theorem lc_value_split (trips : List (Trip F)) (z : List F) (terms : List (F × LC.LCTerm)) :
+    LC.termsValue (fun l => polyValueAt trips l z) terms = lcPolyValue trips z terms + lcConst terms := by
+  induction terms with
+  | nil => simp [LC.termsValue, lcPolyValue, lcConst]
+  | cons t ts ih =>
+    simp only [LC.termsValue, lcPolyValue, lcConst, ih]
+    rcases t with ⟨a, _ | l⟩
+    · simp only [LC.termVal, termPolyValue, LC.LCTerm.isOne, if_true]; ring
+    · simp only [LC.termVal, termPolyValue, polyValueAt, LC.LCTerm.isOne, Bool.false_eq_true, if_false]
+      cases Marlin.lookupLast (fun (t : Trip F) => t.1.label) l trips <;> simp <;> ring
+
+theorem constFor_not_mem (lcs : List (LC.LinComb F)) (l : Label) (h : l ∉ lcs.map (·.label)) :
+    constFor lcs l = 0 := by
+  induction lcs with
+  | nil => rfl
+  | cons lc lcs ih =>
+    simp only [List.map_cons, List.mem_cons, not_or] at h
+    simp only [constFor, ih h.2]
+    rw [if_neg (fun hx => h.1 hx.symm)]
+    ring
+
+theorem lookupLast_not_mem (lcs : List (LC.LinComb F)) (l : Label) (h : l ∉ lcs.map (·.label))
+    (acc : Option (LC.LinComb F)) :
+    lcs.foldl (fun acc x => if x.label = l then some x else acc) acc = acc := by
+  induction lcs generalizing acc with
+  | nil => rfl
+  | cons lc lcs ih =>
+    simp only [List.map_cons, List.mem_cons, not_or] at h
+    simp only [List.foldl_cons]
+    rw [if_neg (fun hx => h.1 hx.symm)]
+    exact ih h.2 acc
+
+/-- with pairwise distinct combination labels, the value `check_combinations` must be given for
+the combination `lc` is `LinearCombination`'s value of `lc` -/
+theorem lcValueAt_unique (trips : List (Trip F)) (lcs : List (LC.LinComb F))
+    (hnd : (lcs.map (·.label)).Nodup) (lc : LC.LinComb F) (hmem : lc ∈ lcs) (z : List F) :
+    lcValueAt trips lcs lc.label z = LC.value lc (fun l => polyValueAt trips l z) := by
+  have key : ∀ (acc : Option (LC.LinComb F)),
+      lcs.foldl (fun acc x => if x.label = lc.label then some x else acc) acc = some lc
+        ∧ constFor lcs lc.label = lcConst lc.terms := by
+    induction lcs with
+    | nil => cases hmem
+    | cons x lcs ih =>
+      intro acc
+      simp only [List.map_cons, List.nodup_cons] at hnd
+      rcases List.mem_cons.1 hmem with rfl | hm
+      · simp only [List.foldl_cons, if_true, constFor]
+        rw [lookupLast_not_mem lcs _ hnd.1, constFor_not_mem lcs _ hnd.1]
+        exact ⟨rfl, by ring⟩
+      · have hne : ¬ x.label = lc.label := by
+          intro hx
+          apply hnd.1
+          rw [hx]
+          exact List.mem_map.2 ⟨lc, hm, rfl⟩
+        simp only [List.foldl_cons, hne, if_false, constFor]
+        obtain ⟨h1, h2⟩ := ih hnd.2 hm acc
+        exact ⟨h1, by rw [h2]; ring⟩
+  obtain ⟨h1, h2⟩ := key none
+  unfold lcValueAt polyPartAt Marlin.lookupLast LC.value
+  rw [h1, h2, lc_value_split]
+
 end PST
 end PCV
